@@ -51,3 +51,59 @@ Print Assumptions C17_jh_blocks_exact.
 Print Assumptions C17_jh_digest_conforms.
 Print Assumptions C17_jh_len_limit.
 Print Assumptions C17_jh_examples.
+
+(* ---- c17-fromstate: digest continued from ANY entered state = specification ---- *)
+From CC Require Import Proofs.JHFromState.
+
+(** a state entered through the hook: any 128-byte chaining value [cv], byte counter [D], buffered
+    bytes, with the consistency condition D mod 64 = number of buffered bytes (met by every state
+    reached by hashing: [C17_jh_reached_state_consistent]); then any sequence of update calls and
+    finalize, fewer than 2^61 bytes in total, either profile, any of the four variants: no overflow
+    panic, exact counter and length field, and the digest is the specification continued from
+    [cv] over buffered ++ data for a message of D + bytes-fed bytes *)
+Theorem C17_jh_from_state_eq_spec : forall p v size cv D buffered calls,
+  variant_size v size ->
+  length cv = 128%nat -> Forall is_byte cv ->
+  Forall is_byte buffered -> Forall is_byte (concat calls) ->
+  D mod 64 = N.of_nat (length buffered) ->
+  D + N.of_nat (length (concat calls)) < 2 ^ 61 ->
+  exists h,
+    h_updates p (Hasher (compressor_new cv)
+                        (fst (input_block (bb_reset (h_buffer (h_default v))) buffered)) D) calls = Some h
+    /\ h_datalen h = D + N.of_nat (length (concat calls))
+    /\ h_bitlen p h = Some (8 * (D + N.of_nat (length (concat calls))))
+    /\ h_finalize p v h
+       = Some (Spec.JH.jh_tail size cv (D + N.of_nat (length (concat calls))) (buffered ++ concat calls)).
+Proof. exact from_state_digest_eq_spec. Qed.
+
+(** ... and the blocks compressed from the entered state on are the specified continued padding *)
+Theorem C17_jh_from_state_blocks_exact : forall p v cv D buffered calls,
+  D mod 64 = N.of_nat (length buffered) ->
+  D + N.of_nat (length (concat calls)) < 2 ^ 61 ->
+  exists h bl fin,
+    h_updates p (Hasher (compressor_new cv)
+                        (fst (input_block (bb_reset (h_buffer (h_default v))) buffered)) D) calls = Some h
+    /\ h_state h = fold_left compressor_input bl (compressor_new cv)
+    /\ h_bitlen p h = Some (8 * (D + N.of_nat (length (concat calls))))
+    /\ h_final_blocks h (8 * (D + N.of_nat (length (concat calls)))) = Some fin
+    /\ bl ++ fin = Spec.JH.blocks_of
+                     (Spec.JH.pad_tail (D + N.of_nat (length (concat calls))) (buffered ++ concat calls)).
+Proof. exact from_state_blocks_eq_spec. Qed.
+
+(** the consistency condition holds in every state reached from [default] by update calls *)
+Theorem C17_jh_reached_state_consistent : forall p v calls,
+  N.of_nat (length (concat calls)) < 2 ^ 64 ->
+  exists h, h_updates p (h_default v) calls = Some h
+         /\ h_datalen h mod 64 = N.of_nat (length (Proofs.BlockBufferLazy.bb_content (h_buffer h)))
+         /\ length (Proofs.BlockBufferLazy.bb_content (h_buffer h)) = bb_pos (h_buffer h)
+         /\ bb_size (h_buffer h) = 64%nat.
+Proof. exact reached_state_consistent. Qed.
+
+Definition C17_jh_from_state_examples :=
+  (reached_state_values, reached_state_from_state_theorem_applies,
+   reached_state_continuation_is_whole_digest, entered_state_above_2_32_bytes, entered_state_limit).
+
+Print Assumptions C17_jh_from_state_eq_spec.
+Print Assumptions C17_jh_from_state_blocks_exact.
+Print Assumptions C17_jh_reached_state_consistent.
+Print Assumptions C17_jh_from_state_examples.
